@@ -221,7 +221,7 @@ class Cfg:
             big = np.zeros((2 * self.n,) + b.shape[1:], dtype=b.dtype)
             big[::2] = b
             big[1::2] = -77
-            arr, guard = big[::2], big
+            arr, guard = big[::2], big[1::2]
         elif self.layout == "negstride":
             arr = b[::-1].copy()[::-1]
         elif self.layout == "subclass":
@@ -452,6 +452,12 @@ def correspond(ctx):
         "integer sub-expressions of the scaling statements are rendered in Nat (agrees with Python ints for d <= n, N >= 1)",
         "C15: the statistic is a function of the array it is handed; data_unmodified assumes it does not write into its "
         "argument (the probe call `function(data[:max(1, n//100)])` hands it a VIEW of the caller's array)",
+        "C15: 'deterministic function of (data, statistic, fraction, N, seed)' is also read across interpreter sessions "
+        "(different PYTHONHASHSEED, differently advanced generators) and as 'the call leaves the caller's random / "
+        "np.random state, cwd, np.geterr() and print options as found' (the model's compute returns the parent's generator "
+        "unchanged); the constructor's documented rd.seed(seed) is not judged",
+        "C15: the API takes no file names or free text, so the text devices (CRLF, non-ASCII, trailing blanks) and one-shot "
+        "iterators do not apply; lists / tuples are documented to raise TypeError, which is what is asserted",
     ]
     ncfg = ctx.n(4, 30)
     if ctx.thorough:
@@ -495,10 +501,12 @@ def correspond(ctx):
         c1, c2 = rng.choice(cores_list), rng.choice(cores_list)
         scramble_global(rng)
         runs.append((c1, run_real(cfg, c1, slow=1, obj=obj), "object-first"))
+        obj = runs[-1][1].get("obj", obj)  # when the object was copied before use, the copy carries on
         other = gen_cfg_for_object(rng, cfg.frac, cfg.N, cfg.seed, avoid_n=cfg.n)
         co = rng.choice([1, 2, 3])
         scramble_global(rng)
         ro = run_real(other, co, obj=obj)
+        obj = ro.get("obj", obj)
         if other.d < 1:
             lines.append(enc_line(other, [], [(0, i) for i in range(other.N)]))
             meta.append((other, co, ro, None, None, "raise"))
@@ -559,6 +567,10 @@ def correspond(ctx):
         ctx.count(f"workers_used={workers_used}")
         ctx.count("completion-out-of-task-order" if ooo else "completion-in-task-order")
         ctx.count(f"call={how}")
+        for dk in ("obj", "fn", "data"):
+            ctx.count(f"device/{dk}={cfg.dev.get(dk, 'plain' if dk != 'fn' else 'function')}")
+        if cfg.dev.get("env"):
+            ctx.count("device/env=fresh-cwd+seterr-warn+printoptions")
         if not out.startswith("ok "):
             ctx.brk("correspondence-broken", f"model answered {out!r}, code returned {r['value']!r}",
                     case=dict(cfg=cfg.as_json(), num_cores=cores, schedule=sched))
@@ -578,6 +590,8 @@ def correspond(ctx):
             problems.append("data array after the call differs from the model's")
         if r.get("padding_ok") is False:
             problems.append("memory next to the strided view was written")
+        if r.get("env_problems"):
+            problems.append("the call changed the caller's " + ", ".join(r["env_problems"]) + " (the model leaves them)")
         if problems:
             ctx.brk("correspondence-broken", "; ".join(problems),
                     case=dict(cfg=cfg.as_json(), num_cores=cores, schedule=sched, draws=draws, model=out[:400]))
@@ -670,6 +684,8 @@ def step_problem(cfg, r):
         return ("admissible-call-raised", f"n={cfg.n} d={cfg.d}: admissible but the call raised {r['msg']!r}", dict(msg=r["msg"]))
     if cfg.kind != "mutmean" and (not np.array_equal(r["after"], cfg.base) or r.get("padding_ok") is False):
         return ("data-modified", "the data array was modified by the call", {})
+    if r.get("env_problems"):
+        return ("environment-modified", "the call changed the caller's " + ", ".join(r["env_problems"]), dict(changed=r["env_problems"]))
     ex = exact_formula(cfg)
     if not ex["assertable"]:
         return None
@@ -862,6 +878,7 @@ def run_session(sess, rng, stats=None):
     for k, st in enumerate(sess.steps):
         scramble_global(rng)
         if st.fault is not None:
+            obj = clone(obj, st.cfg.dev.get("obj", "plain"))
             exc = run_fault(st.cfg, st.cores, obj, st.fault)
             if stats is not None:
                 t = f"{st.fault['type']}" + (f"@{st.fault['k']}" if "k" in st.fault else "")
@@ -869,6 +886,7 @@ def run_session(sess, rng, stats=None):
                     stats.get(f"error-step/{t}/cores={'1' if st.cores == 1 else '>1'}/{'raised ' + exc if exc else 'returned'}", 0) + 1
             continue
         r = run_real(st.cfg, st.cores, obj=obj, want_log=False)
+        obj = r.get("obj", obj)  # an object that was copied / pickled before use: the copy carries on
         pr = step_problem(st.cfg, r)
         if pr:
             return (k,) + pr
@@ -933,6 +951,99 @@ def reproduces_in_new_process(inp):
     finally:
         if os.path.exists(path):
             os.unlink(path)
+
+
+# ------------------------------------------------------------------ array-likes that are not numpy arrays
+def array_like_check(cfg, rng, stats):
+    """lists / tuples: the docs demand a numpy array (TypeError).  Either that, or - should the code accept them - the
+    value for the equivalent array."""
+    from sparkx.Jackknife import Jackknife
+    out = []
+    for form, conv in (("list", lambda a: a.tolist()), ("tuple", lambda a: tuple(a.tolist()))):
+        arr, _ = cfg.fresh()
+        scramble_global(rng)
+        fn, args, kw = call_form(cfg.dev.get("fn", "function"), cfg.kind)
+        try:
+            v = float(Jackknife(cfg.frac, cfg.N, cfg.seed).compute_jackknife_estimates(conv(arr), fn, rng.choice([1, 2]), *args, **kw))
+        except TypeError:
+            stats[f"array-like/{form}/TypeError as documented"] = stats.get(f"array-like/{form}/TypeError as documented", 0) + 1
+            continue
+        except Exception as e:  # noqa: BLE001
+            out.append((f"array-like/{form}", f"data given as {form}: documented TypeError, got {type(e).__name__}: {e}",
+                        dict(cfg.as_json(), mode="array-like", form=form), dict(raised=type(e).__name__)))
+            continue
+        stats[f"array-like/{form}/accepted"] = stats.get(f"array-like/{form}/accepted", 0) + 1
+        plain = Cfg(cfg.base, "c", cfg.kind, cfg.frac, cfg.N, cfg.seed)
+        pr = step_problem(plain, dict(value=v, after=cfg.base))
+        if pr:
+            out.append((f"array-like/{form}", f"data given as {form} is accepted but: {pr[1]}",
+                        dict(cfg.as_json(), mode="array-like", form=form), pr[2]))
+    return out
+
+
+# ------------------------------------------------------------------ other interpreter sessions
+def child_main(path):
+    """entry point of a child interpreter: run the cases of the file after advancing the generators, print the values"""
+    job = json.loads(open(path).read())
+    r = random.Random(job["advance"])
+    out = []
+    for cj, cores in job["cases"]:
+        scramble_global(r)
+        for _ in range(r.randint(0, 50)):
+            random.random()
+            np.random.random()
+        res = run_real(Cfg.from_json(cj), cores, want_log=False)
+        out.append(f2h(res["value"]) if "value" in res else "err:" + res.get("msg", ""))
+    print("C15CHILD " + json.dumps(out))
+
+
+def cross_session_values(cases, rng, nchildren=3):
+    """{label: [hex value per case]} for this process and `nchildren` fresh interpreters with different PYTHONHASHSEED"""
+    res = {}
+    mine = []
+    for cfg, cores in cases:
+        scramble_global(rng)
+        r = run_real(cfg, cores, want_log=False)
+        mine.append(f2h(r["value"]) if "value" in r else "err:" + r.get("msg", ""))
+    res[f"this process (PYTHONHASHSEED={os.environ.get('PYTHONHASHSEED', 'unset')})"] = mine
+    hdir = str(common.VERIF / "harness")
+    procs = []
+    tmp = tempfile.mkdtemp(prefix="c15_child_")
+    try:
+        for i, hs in enumerate((["0", "1"] + [str(rng.randint(2, 4_000_000_000)) for _ in range(8)])[:nchildren]):
+            path = os.path.join(tmp, f"job{i}.json")
+            with open(path, "w") as fh:
+                json.dump(dict(advance=rng.getrandbits(32), cases=[(c.as_json(), k) for c, k in cases]), fh)
+            code = ("import sys; sys.path.insert(0, %r); sys.path.insert(0, %r); import props.C15 as m; m.child_main(%r)"
+                    % (hdir, str(common.REPO / "src"), path))
+            procs.append((hs, subprocess.Popen([sys.executable, "-c", code], env=dict(os.environ, PYTHONHASHSEED=hs),
+                                               stdout=subprocess.PIPE, stderr=subprocess.PIPE, text=True)))
+        for hs, p_ in procs:
+            try:
+                so, se = p_.communicate(timeout=600)
+            except subprocess.TimeoutExpired:
+                p_.kill()
+                so, se = "", "timeout"
+            line = [l for l in so.splitlines() if l.startswith("C15CHILD ")]
+            res[f"child interpreter PYTHONHASHSEED={hs}"] = json.loads(line[-1][9:]) if line else ["child failed: " + se[-300:]] * len(cases)
+    finally:
+        shutil.rmtree(tmp, ignore_errors=True)
+    return res
+
+
+def cross_session_check(cases, rng, nchildren=3):
+    """[] or [(key, what, replay_input, detail)]: the same call in different interpreter sessions"""
+    res = cross_session_values(cases, rng, nchildren)
+    out = []
+    for i, (cfg, cores) in enumerate(cases):
+        vals = {lab: v[i] for lab, v in res.items()}
+        if len(set(vals.values())) > 1:
+            shown = {lab: (h2f(v) if len(v) == 16 and not v.startswith("err") and not v.startswith("child") else v) for lab, v in vals.items()}
+            out.append(("determinism/across-interpreter-sessions",
+                        f"n={cfg.n} d={cfg.d} N={cfg.N} seed={cfg.seed} ({cfg.kind}, num_cores={cores}): the value differs between "
+                        f"interpreter sessions: {shown}", dict(cfg.as_json(), mode="cross-session", num_cores=cores), dict(values=shown)))
+            break
+    return out
 
 
 # ------------------------------------------------------------------ magnitude sweeps
@@ -1197,6 +1308,24 @@ def search(ctx, budget_s):
             ctx.count("oracle/error-session-calls", len(sess.steps))
             report4(probs)
     ctx.cov["oracle_error_sessions"] = ne
+    # (1c) lists / tuples instead of arrays; (1d) the same calls in other interpreter sessions
+    st_ = {}
+    for i in range(ctx.n(2, 6)):
+        report4(array_like_check(gen_cfg(rng, allow_mut=False, small=True), rng, st_))
+    for t, k in st_.items():
+        ctx.count("oracle/" + t, k)
+    cases = []
+    for i in range(ctx.n(3, 8)):
+        c = gen_cfg(rng, want_d1=(i == 0), allow_mut=False, small=(i % 2 == 0), magnitude=(i == 2))
+        if i == 1:  # more than half of the rows deleted
+            dd = c.n - max(1, c.n // 4)
+            c = Cfg(c.base, c.layout, c.kind, (dd + 0.5) / c.n, c.N, c.seed, c.dev)
+        cases.append((c, rng.choice([1, 2, 3])))
+        ctx.case(("cross-session", c.canon()), True)
+    nch = ctx.n(3, 4)
+    report4(cross_session_check(cases, rng, nch))
+    ctx.count("oracle/cross-session-cases", len(cases))
+    ctx.count("oracle/cross-session-child-interpreters", nch)
     # (2) magnitude sweeps for the formula, the scaling law and the shift law
     nm = 0
     for i in range(ctx.n(3, 10)):
@@ -1258,6 +1387,10 @@ def replay(ctx, path):
                       ("; the same call on a fresh object is right" if fresh is None else ""))]
     elif mode in ("scale", "shift"):
         probs = law_replay(inp, ctx.rng)
+    elif mode == "cross-session":
+        probs = [(k, w) for k, w, _, _ in cross_session_check([(Cfg.from_json(inp), int(inp.get("num_cores", 2)))], ctx.rng, 3)]
+    elif mode == "array-like":
+        probs = [(k, w) for k, w, _, _ in array_like_check(Cfg.from_json(inp), ctx.rng, {})]
     else:
         cfg = Cfg.from_json(inp)
         probs = [(k, w) for k, w, _ in oracle_check(cfg, ctx.rng, cores_list=[1, 2, 5])]
